@@ -25,16 +25,18 @@ var c09Names = []string{"p", "p.txt", "d/q", "d/e/r", "d.x", "d-y", "s t", "ü",
 	// names two and three directories deep together with the names of those directories themselves: once the last object
 	// below "logs" is deleted, "logs" and "logs/2024" are ordinary absent names that can be written, copied / composed onto
 	// and whose DELETE is a 404 - on both stores
-	"logs/2024/app.txt", "logs/2024", "logs", "arch/2023/q4/sum.csv", "arch/2023/q4", "arch/2023", "arch", "report"}
+	"logs/2024/app.txt", "logs/2024", "logs", "arch/2023/q4/sum.csv", "arch/2023/q4", "arch/2023", "arch", "report",
+	// names that continue a neighbour's name by a suffix a store might use for files of its own (temporaries, backups)
+	"p.tmp", "d/q.tmp", "report.csv.bak", "p.txt~"}
 
 func c09Opts() *progOpts {
 	return &progOpts{Buckets: []string{"vb1", "vb2"}, Names: c09Names, FileRules: true, CondPct: 25, JunkPct: 3, MD5Pct: 20, BigPerMille: 3, ExtraPct: 30, CopyBodyPct: 50, GzipObjPct: 22, MidPct: 15,
-		W: map[string]int{"upload": 22, "overwrite": 16, "burst": 3, "delete": 14, "delete_absent": 3, "patch": 10, "patch_full": 7, "patch_bad": 8, "patch_burst": 3, "patch_absent": 2, "compose": 9, "copy": 10, "bucket_cycle": 3, "noop": 2, "reads": 9, "decoy": 5, "dirs": 6, "big_same": 1}}
+		W: map[string]int{"upload": 22, "overwrite": 16, "burst": 3, "delete": 14, "delete_absent": 3, "patch": 10, "patch_full": 7, "patch_bad": 8, "patch_burst": 3, "patch_absent": 2, "compose": 9, "copy": 10, "bucket_cycle": 3, "noop": 2, "reads": 9, "decoy": 5, "dirs": 6, "big_same": 1, "sibling": 7, "compose_chain": 2}}
 }
 
 // C09: the file store persists everything and is equivalent to the memory store.
 func runC09(run *common.Run) {
-	run.Rule = "sub 'restart': one generated program (30-60 steps: uploads by all protocols, overwrites, patches, deletes, compose, copy within/across 2 buckets, conditioned and failing requests, PATCH bodies whose valid members (user metadata, acl / owner ...) are followed by a member of the wrong JSON type and that must be refused without a trace, failing PATCH requests naming nested fields, retries on resumable sessions rejected for their MD5, copies whose request body is a full - stale or made-up - destination resource, self-append composes; names representable as files, interleaving files and directories such as d/q, d.x, d-y, report.csv vs report/2024.csv, sibling directories d/e, d/e.1, d/e-2; read-modify-write patches sending back full resources, also the resource of another / another bucket's / a non-existent object onto the addressed one; one upload in five carries a real gzip stream as content, mostly declared contentEncoding gzip in its metadata or by a later PATCH; 'reads' steps: metadata GET, media GET through every URL form with and without 'Accept-Encoding: gzip', a listing, preferably of a gzip-encoded object - the dump after a step that only read must equal the dump before it; 'dirs' scenarios: a name two to four levels deep (logs/2024/app.txt, arch/2023/q4/sum.csv, d/e/r) is stored if need be and deleted, then one request - upload by any protocol, copy onto, compose onto, DELETE (404), reads - is addressed to the name of each of its ancestors' 'directories' (logs, logs/2024; outermost first two times in three), one request per step: once nothing is stored below them they are ordinary absent names on both stores; 'same bytes again' scenario (about one program in three): an object of 1 MiB or 1 MiB + 17 bytes is written again with byte-identical content through the other two upload protocols, copied onto itself, overwritten by a copy of a twin holding the same bytes, patched and uploaded again, then deleted - each a content write with a new generation and metageneration 1 on both stores; 15% of the resumable uploads are sent in >= 2 chunk requests with 1-2 other requests on the same object between two chunks; 'decoy' steps: delete / patch / copy-from / compose-with a never-stored name that is a '/'-prefix of stored names, with and without trailing slash, or a stored name continued by '/') against file-store instance 1; after EVERY request a second emulator instance is started on the same directory and its whole-store dump (bucket GET, full listing, the listing paged with maxResults 1, 2 and 3 along the token chain, metadata + media of every name) must equal instance 1's dump (host names rewritten) and the reference model, generations and metagenerations exactly; at the end content files without a sidecar are dropped into the directory and must be listed, served with size and a generation, and deletable. Sub 'equiv': the same program (same PRNG stream) fed to a memory-store and a file-store emulator in lock-step; every deciding response (status + full body, resumable sub-requests) and every whole-store dump (incl. the concatenated paged listings) must be equal after renaming generations to per-store ordinals of first appearance and dropping timestamps and host:port. Sub 'kill': the real gcsemulator binary built from /repo with -dir, SIGKILLed between requests and restarted. Non-trivial = the program had a successful patch, delete, overwrite and compose-or-copy (restart: and >= 20 second-instance dumps compared); distinct by hash of the step log."
+	run.Rule = "sub 'restart': one generated program (30-60 steps: uploads by all protocols, overwrites, patches, deletes, compose, copy within/across 2 buckets, conditioned and failing requests, PATCH bodies whose valid members (user metadata, acl / owner ...) are followed by a member of the wrong JSON type and that must be refused without a trace, failing PATCH requests naming nested fields, retries on resumable sessions rejected for their MD5, copies whose request body is a full - stale or made-up - destination resource, self-append composes; names representable as files, interleaving files and directories such as d/q, d.x, d-y, report.csv vs report/2024.csv, sibling directories d/e, d/e.1, d/e-2; read-modify-write patches sending back full resources, also the resource of another / another bucket's / a non-existent object onto the addressed one; one upload in five carries a real gzip stream as content, mostly declared contentEncoding gzip in its metadata or by a later PATCH; 'reads' steps: metadata GET, media GET through every URL form with and without 'Accept-Encoding: gzip', a listing, preferably of a gzip-encoded object - the dump after a step that only read must equal the dump before it; 'dirs' scenarios: a name two to four levels deep (logs/2024/app.txt, arch/2023/q4/sum.csv, d/e/r) is stored if need be and deleted, then one request - upload by any protocol, copy onto, compose onto, DELETE (404), reads - is addressed to the name of each of its ancestors' 'directories' (logs, logs/2024; outermost first two times in three), one request per step: once nothing is stored below them they are ordinary absent names on both stores; 'same bytes again' scenario (about one program in three): an object of 1 MiB or 1 MiB + 17 bytes is written again with byte-identical content through the other two upload protocols, copied onto itself, overwritten by a copy of a twin holding the same bytes, patched and uploaded again, then deleted - each a content write with a new generation and metageneration 1 on both stores; 15% of the resumable uploads are sent in >= 2 chunk requests with 1-2 other requests on the same object between two chunks; 'decoy' steps: delete / patch / copy-from / compose-with a never-stored name that is a '/'-prefix of stored names, with and without trailing slash, or a stored name continued by '/') against file-store instance 1; after EVERY request a second emulator instance is started on the same directory and its whole-store dump (bucket GET, full listing, the listing paged with maxResults 1, 2 and 3 along the token chain, metadata + media of every name) must equal instance 1's dump (host names rewritten) and the reference model, generations and metagenerations exactly; at the end content files without a sidecar are dropped into the directory and must be listed, served with size and a generation, and deletable. Sub 'equiv': the same program (same PRNG stream) fed to a memory-store and a file-store emulator in lock-step; every deciding response (status + full body, resumable sub-requests) and every whole-store dump (incl. the concatenated paged listings) must be equal after renaming generations to per-store ordinals of first appearance and dropping timestamps and host:port. Sub 'kill': the real gcsemulator binary built from /repo with -dir, SIGKILLed between requests and restarted. Non-trivial = the program had a successful patch, delete, overwrite and compose-or-copy (restart: and >= 20 second-instance dumps compared); distinct by hash of the step log. 'sibling' scenarios: two objects whose names extend one another by a suffix a store might use for files of its own (X and X.tmp, X.meta, X~, X.part, X.bak, X.lock, X.new, X.old, X.swp, X.json, X.emumeta.tmp, .X.swp, #X#; file store: only names it can hold), both given non-default metadata (content type, user metadata, acl / owner ..., mostly a patch on top), then 3-6 requests - overwrite by any protocol, patch, copy onto it (also from the sibling: 'upload to name.tmp, rewrite to name'), compose onto it, delete / re-creation - addressed to one of the two, one per step; the dump after each compares both objects' content, metadata, MD5, generation and metageneration with the model. 'compose_chain' scenarios: composes whose source lists begin with the same head object and continue with different tails, accepted ones (results kept under <head>.cat1..3) alternating with ones that must be refused (failing / unparsable destination condition, failing per-source ifGenerationMatch on a later source, missing later source; addressed to an earlier result, another name, the head or a tail); the dump after every request compares the content of every object."
 	run.Assumptions = []string{
 		"programs use only names representable as files (no empty / '.' / '..' component, no trailing '/', no name that is a directory prefix of a live name, no .emumeta suffix, components <= 255 bytes)",
 		"the file store keeps no write-back state, so a second instance on the same directory sees what a kill between requests would leave; real SIGKILL/restart cycles of the gcsemulator binary confirm the command-line wiring",
